@@ -24,6 +24,8 @@
 //   exprT                Matrix R = M*2.0 + N.T()
 //   assign               S = M*2.0 + N     (S of the same type): raw elements and dense view
 //   assignT              S = M*2.0 + N.T()
+//   dmat s               (BandEngine_ROW_MAJOR 0 0 only) D = v.diag_matrix() for the n-element view v of stride s of a
+//                        vector holding 1,2,3,...: offset(), const reads of D, Matrix(D), Matrix(D.T())
 #include "spy.h"
 #include <type_traits>
 #include <utility>
@@ -235,6 +237,23 @@ template <class E> struct Ops {
   }
 };
 
+static std::string run_dmat(const std::vector<std::string>& w) {
+  if (w.size() != 6) return "bad-op";
+  Index n = atoi(w[4].c_str()), s = atoi(w[5].c_str());
+  if (n < 1 || n > 64 || s < 1 || s > 8) return "bad-op";
+  Vector big(n * s);
+  for (Index k = 0; k < n * s; ++k) big(k) = k + 1;
+  Vector v = big(stride(0, n * s - 1, s));
+  if (v.size() != n) return "bad-op";
+  DiagMatrix D0 = v.diag_matrix();
+  const DiagMatrix D(D0);
+  Matrix C(D);
+  Matrix Ct(D0.T());
+  std::ostringstream os;
+  os << "offset=" << D.offset() << " get=" << list(view(D)) << " conv=" << mat(C) << " convT=" << mat(Ct);
+  return os.str();
+}
+
 template <MatrixStorageOrder Order> static std::string band(const std::vector<std::string>& w, int L, int U) {
 #define VERIF_BAND(l, u) if (L == l && U == u) return Ops<BandEngine<Order, l, u> >::run(w);
   VERIF_BAND(0, 0) VERIF_BAND(1, 1) VERIF_BAND(2, 2) VERIF_BAND(0, 2) VERIF_BAND(2, 0) VERIF_BAND(3, 1) VERIF_BAND(1, 3) VERIF_BAND(4, 4)
@@ -246,6 +265,7 @@ static std::string dispatch(const std::vector<std::string>& w) {
   if (w.size() < 5) return "bad-op";
   const std::string& e = w[1];
   int L = atoi(w[2].c_str()), U = atoi(w[3].c_str());
+  if (w[0] == "dmat") return (e == "BandEngine_ROW_MAJOR" && L == 0 && U == 0) ? run_dmat(w) : std::string("bad-op");
   if (e == "BandEngine_ROW_MAJOR") return band<ROW_MAJOR>(w, L, U);
   if (e == "BandEngine_COL_MAJOR") return band<COL_MAJOR>(w, L, U);
   if (L != 0 || U != 0) return "bad-op";
